@@ -8,16 +8,15 @@ NOTES={
 }
 out='/verif/seeded'
 os.makedirs(out, exist_ok=True)
-for rf in sorted(glob.glob('/tmp/seed/results/*.json'))+sorted(glob.glob('/tmp/seed/results2/*.json'))+sorted(glob.glob('/tmp/seed/results3/*.json'))+sorted(glob.glob('/tmp/seed/results4/*.json')):
-    rnd2='results2' in rf
-    rnd3='results3' in rf
-    rnd4='results4' in rf
+rounds=['', '2', '3', '4', '5', '6', '7', '8']
+files=[]
+for r_ in rounds:
+    files+=[(r_, f) for f in sorted(glob.glob(f'/tmp/seed/results{r_}/*.json'))]
+for r_, rf in files:
     name=os.path.basename(rf)[:-5]           # C01-m1
     pid,m=name.split('-')
-    srcdir='/tmp/seed/out4' if rnd4 else '/tmp/seed/out3' if rnd3 else ('/tmp/seed/out2' if rnd2 else '/tmp/seed/out')
-    if rnd2: name=pid+'-r2'+m
-    if rnd3: name=pid+'-r3'+m
-    if rnd4: name=pid+'-r4'+m
+    srcdir='/tmp/seed/out'+r_
+    if r_: name=pid+'-r'+r_+m
     s=open(rf).read()
     try: r=json.loads(s[s.index('{'):])
     except Exception as e:
